@@ -1,26 +1,29 @@
 // Correspondence driver for C04 (sm3 as hash.Hash, HMAC-SM3, PBKDF2-SM3).  Black box: public API only.
 //
-//   c04 gen  <seed> <tier> <cases-out> <obs-out>   generate cases, run /repo on them
-//   c04 run  <cases-in> <obs-out>                  run /repo on given cases (replay)
+//	c04 gen  <seed> <tier> <cases-out> <obs-out>   generate cases, run /repo on them
+//	c04 run  <cases-in> <obs-out>                  run /repo on given cases (replay)
 //
 // Case lines (fields separated by one space; bytes in hex, "." or "-" for empty):
-//   I id -                    Size() and BlockSize()
-//   H id ops                  history on sm3.New(); ops comma separated:
-//                               W:<hex>          Write (the driver scribbles over its buffer afterwards)
-//                               S:<kind>:<hex>   Sum(prefix); kind n = nil, e = empty with capacity 64,
-//                                                x = the bytes without spare capacity, c = the bytes with capacity 64
-//                               R                Reset
-//   N id key ops              the same history on hmac.New(sm3.New, key)
-//   L id seed n               Sm3Sum and New/Write/Sum(nil) of the first n bytes of stream(seed)
-//   G id seed lo hi           the same for every length lo..hi-1 (one observation per length)
-//   P id chunks               New, Write each chunk, Sum(nil)
-//   T id seed total chunk     total bytes (pattern(seed) repeated) written in chunks of the given size
-//   M id key msg              hmac.New(sm3.New, key); Write(msg); Sum(nil)
-//   K id pw salt iter dklen   pbkdf2.Key(pw, salt, iter, dklen, sm3.New)
+//
+//	I id -                    Size() and BlockSize()
+//	H id ops                  history on sm3.New(); ops comma separated:
+//	                            W:<hex>          Write (the driver scribbles over its buffer afterwards)
+//	                            S:<kind>:<hex>   Sum(prefix); kind n = nil, e = empty with capacity 64,
+//	                                             x = the bytes without spare capacity, c = the bytes with capacity 64
+//	                            R                Reset
+//	N id key ops              the same history on hmac.New(sm3.New, key)
+//	L id seed n               Sm3Sum and New/Write/Sum(nil) of the first n bytes of stream(seed)
+//	G id seed lo hi           the same for every length lo..hi-1 (one observation per length)
+//	P id chunks               New, Write each chunk, Sum(nil)
+//	T id seed total chunk     total bytes (pattern(seed) repeated) written in chunks of the given size
+//	M id key msg              hmac.New(sm3.New, key); Write(msg); Sum(nil)
+//	K id pw salt iter dklen   pbkdf2.Key(pw, salt, iter, dklen, sm3.New)
+//
 // Observation lines:  id ok <fields> | id PANIC | id HANG
-//   H/N: per op  w<n> | s<hex of the returned slice>/<1 if the caller's prefix bytes are intact> | r
-//   L:   <Sm3Sum digest> <New/Write/Sum digest>
-//   G:   per length <digest>, or <Sm3Sum digest>!<New/Write/Sum digest> when the two differ
+//
+//	H/N: per op  w<n> | s<hex of the returned slice>/<1 if the caller's prefix bytes are intact> | r
+//	L:   <Sm3Sum digest> <New/Write/Sum digest>
+//	G:   per length <digest>, or <Sm3Sum digest>!<New/Write/Sum digest> when the two differ
 package main
 
 import (
